@@ -180,6 +180,8 @@ class Parser:  # pylint: disable=too-many-public-methods
         return expr
 
     def finishcall(self, expr):
+        if isinstance(expr, Variable) and expr.level is not None:
+            raise ParseError("Subset notation can't be used in the name of a function.")
         args = []
         self.call_depth += 1
         if not self.check("RIGHT_PAREN"):
